@@ -31,6 +31,31 @@ def compare(d):
     return first_diff(impl, model, subs), npat, len(subs), nontrivial
 
 
+def long_cases(seed):
+    """Long patterns and subjects (the exhaustive family stops at 5 x 3 bytes, the random one at 14 x 10):
+    star backtracking where early candidate positions fail late and a later one succeeds, several stars
+    with classes / escapes / '?' after them, and inputs of thousands of bytes.  All of them polynomial for
+    a naive backtracking matcher.  Returns (patterns, subjects) as lists of bytes; every pair is compared."""
+    import random
+    rnd = random.Random(seed * 7919 + 17)
+    pats, subs = [], []
+    for n, m in ((20, 40), (100, 250), (180, 420), (60, 1000)):
+        pats += [b"*" + b"a" * n + b"b", b"*" + b"a" * n + b"?", b"a*" + b"a" * n + b"[a-c]", b"*" + b"a" * n + b"\\b",
+                 b"job:*" + b"a" * n + b"b", b"*" + b"a" * n]
+        subs += [b"a" * m + b"b", b"a" * m, b"a" * m + b"c", b"job:" + b"a" * m + b"b", b"a" * (n - 1) + b"b", b"a" * n + b"b"]
+    for n in (130, 400):
+        body = bytes(rnd.choice(b"abc") for _ in range(n))
+        pats += [b"*" + body[:20] + b"*" + body[40:60] + b"[^x]" + b"?" * 3 + b"*" + body[-10:],
+                 body[:50] + b"*" + body[-50:], b"*[a-c]" * 8 + b"*", b"?" * n, b"?" * (n - 1) + b"*"]
+        subs += [body, body + b"z", b"x" + body, body[:-1]]
+    for n in (10001, 12000):
+        lit = bytes(rnd.choice(b"abcdefgh") for _ in range(n))
+        pats += [lit, b"user:" + lit + b"*", b"*" + lit[-200:], lit[:200] + b"*" + lit[-200:]]
+        subs += [lit, b"user:" + lit + b"tail", lit[:-1] + b"Z"]
+    pats += [b"*", b"**", b"*?", b"?*?"]
+    return pats, subs
+
+
 def run(ctx):
     cov, broken = lib.proof_gate(ctx, extra_tb=[
         "modelled, not verified: Go string slicing/indexing in util.PattenMatch (re-stated as list recursion); tie = exhaustive-in-bounds differential run on every check",
@@ -41,7 +66,7 @@ def run(ctx):
         broken = broken or ("build failed: " + (log1 if not ok1 else log2)[-2000:])
     d = lib.scratch("c17-")
     diff = None
-    npat = nsub = nontriv = 0
+    npat = nsub = nontriv = nlong = 0
     samples = []
     if ctx.replay:
         import json
@@ -69,6 +94,15 @@ def run(ctx):
         if rc != 0:
             broken = broken or ("harness glob failed: " + out[-2000:])
         runs.append(dm)
+        dl = d / "long"
+        dl.mkdir()
+        lp, ls = long_cases(ctx.seed)
+        (dl / "cases.txt").write_text("".join("P %s\n" % x.hex() for x in lp) + "".join("S %s\n" % x.hex() for x in ls))
+        rc, out = lib.sh("%s globfile cases.txt impl.txt" % (lib.BUILD / "harness"), cwd=dl, timeout=600)
+        if rc != 0:
+            broken = broken or ("harness globfile (long inputs) failed: " + out[-2000:])
+        runs.append(dl)
+        nlong = len(lp) * len(ls)
         for rd in runs:
             rc, out = lib.sh("%s glob cases.txt model.txt" % (lib.BUILD / "modelrun"), cwd=rd, timeout=3000)
             if rc != 0:
@@ -102,8 +136,8 @@ def run(ctx):
     cov.update(dict(
         evaluations=npat * nsub,
         distinct_nontrivial=nontriv,
-        rule="all patterns of length<=%s and subjects of length<=%s over the alphabet {a b c * ? [ ] ^ - \\} plus seeded random long inputs over all 256 bytes; a pattern counts as non-trivial when it matches some but not all subjects (counted on the model side)" % (("4", "3") if ctx.tier == "quick" else ("5", "3")),
-        patterns=npat, subjects=nsub, samples=samples or ["(none)"],
+        rule="all patterns of length<=%s and subjects of length<=%s over the alphabet {a b c * ? [ ] ^ - \\} plus seeded random inputs (<= 14 x 10 bytes) over all 256 bytes, plus a long-input family (patterns x subjects of 20..12000 bytes: star backtracking with late-failing candidates, several stars followed by classes / escapes / '?', long literals); a pattern counts as non-trivial when it matches some but not all subjects (counted on the model side)" % (("4", "3") if ctx.tier == "quick" else ("5", "3")),
+        patterns=npat, subjects=nsub, long_input_pairs=nlong, samples=samples or ["(none)"],
         exhaustive=True,
         correspondence="util.PattenMatch (built from /repo working tree) vs extracted gmatch, compared on every pair",
     ))
